@@ -74,6 +74,16 @@ def signature(kname, builtin):
         mod = [m for _, m, t in G.KERNELS if t == kname][0]
         ast = get_kernel_ast(mod, os.path.join(st["kdir"], "x.f90"), [st["kdir"]], False)
         kt = KernelTypeFactory(api="dynamo0.3").create(ast, name=kname)
+        fss = []
+        for d in kt.arg_descriptors:
+            for att in ("function_space", "function_space_to", "function_space_from"):
+                try:
+                    fs = getattr(d, att, None)
+                except Exception:      # noqa: descriptors raise for attributes that do not apply
+                    fs = None
+                if isinstance(fs, str) and fs and fs not in fss:
+                    fss.append(fs.lower())
+        st.setdefault("spaces", {})[kname] = fss
         for d in kt.arg_descriptors:
             if d.argument_type == "gh_scalar":
                 sig.append(("data", "rscalar" if d.data_type == "gh_real" else "iscalar"))
@@ -92,6 +102,12 @@ def signature(kname, builtin):
                 sig.append(("qr", "qr"))
     st["sigs"][key] = sig
     return sig
+
+
+def spaces(kname):
+    """function-space names (as in the metadata) of the field / operator arguments of a palette kernel"""
+    signature(kname, False)
+    return setup()["spaces"].get(kname, [])
 
 
 # ---------------------------------------------------------------- run + read back
